@@ -22,6 +22,9 @@ def unbox(t: Term) -> Term:
     return t
 
 
+FIRST_PART = "name.split('.')[0]"
+
+
 def loc(t: Term) -> Term:
     """Location normal form: PARENT / REL / NOSUF / ABS over leaves; str() / Path() wrappers vanish."""
     t = unbox(t)
@@ -44,6 +47,11 @@ def loc(t: Term) -> Term:
             return ("SPLIT", loc(args[0]))
         if f[0] == "lib" and f[1] == "os.path.splitext" and len(args) == 1:
             return ("SPLITEXT", loc(args[0]))
+    if tag == "idx" and is_const(t[2], 0) and t[1][0] == "mcall" and t[1][2] in ("split", "partition") and t[1][3] and (is_const(t[1][3][0], ".") or t[1][3][0] == ("lib", "os.extsep")):
+        # the part of a file name before its FIRST dot: not the stem (`a.b.py`)
+        b = loc(t[1][1])
+        if b[0] == "attr" and b[2] == "name":
+            return ("attr", b[1], FIRST_PART)
     if tag == "idx" and t[2][0] == "const":
         b = loc(t[1])
         if b[0] == "attr" and b[2] == "parts" and t[2][1] == -1:
@@ -236,7 +244,7 @@ def _tokens(t: Term) -> "list[tuple[str, Term]] | None":
     if tag == "phi":
         return None
     l = loc(t)
-    if l[0] == "attr" and l[2] in ("name", "stem"):
+    if l[0] == "attr" and l[2] in ("name", "stem", FIRST_PART):
         return [("item", l)]
     if tag in ("param", "attr", "call", "mcall", "elem", "idx", "loopvar"):
         return [("item", t)]
@@ -304,6 +312,8 @@ def _drop_last(toks: list[tuple[str, Term]]) -> "list[tuple[str, Term]] | None":
     if not toks:
         return None
     kind, v = toks[-1]
+    if kind == "sep":
+        return toks[:-1]  # `"a.b."`: the last component is empty
     if kind == "item":
         rest = toks[:-1]
         if rest and rest[-1][0] == "sep":
@@ -385,6 +395,12 @@ def alternatives(t: Term, limit: int = 8) -> list[tuple[Formula, Term]]:
                 guard = f_and([("atom", n) if b else f_not(("atom", n)) for n, b in env.items()])
                 out2.append((guard, ("mcall", t[1], "join", (("tuple", pieces),), ())))
             return out2
+    if t[0] == "idx" and t[2][0] == "const" and t[1][0] == "mcall" and t[1][2] in ("rpartition", "partition", "rsplit", "split") or t[0] == "mcall" and t[2] in ("replace", "removeprefix", "removesuffix", "strip", "rstrip", "lstrip", "rpartition", "partition", "rsplit", "split"):
+        # a choice inside the text a string operation works on: the operation applied to every alternative
+        inner = alternatives(t[1], limit)
+        if len(inner) > 1:
+            return [(g, (t[0], v, *t[2:])) for g, v in inner]
+        return [(TRUE, t)]
     if t[0] == "fstr" or (t[0] == "binop" and t[1] == "+"):
         parts = list(t[1]) if t[0] == "fstr" else [t[2], t[3]]
         combos: list[tuple[Formula, list[Term]]] = [(TRUE, [])]
